@@ -225,4 +225,490 @@ theorem stepPc_repo (H : Nat → Nat) (ff : Bool) (prog : Prog) (exO shO : Bool)
   all_goals (repeat' split)
   all_goals first | rfl | simp
 
+/-- failures caused by concurrency / an empty store that the patched code must not show -/
+def bad3 : Err → Bool
+  | .fileNotFound | .jsonDecode | .corruptMeta => true
+  | _ => false
+
+def Res.okRes (r : Res) : Prop := ∀ e, r = .err e → bad3 e = false
+
+/-- patched code (`ff = true`): nothing is pending after an unlock, the "x" creation path is not taken, no
+spurious error is on its way -/
+def PcFF : Pc → Prop
+  | .uClosePkg pend r => pend = none ∧ r.okRes
+  | .iAddClose pend _ failed => pend = none ∧ failed = false
+  | .gClose pend r => pend = none ∧ r.okRes
+  | .iAddCreate | .iAddCreateLock => False
+  | .done r => r.okRes
+  | _ => True
+
+theorem pcFF_afterShare (prog : Prog) (g : Store) (r : Res) (hr : r.okRes) : PcFF (afterShare prog g r).2 := by
+  unfold afterShare
+  split
+  · exact hr
+  · split <;> (try split) <;> (try split) <;> first | trivial | exact hr | (intro e he; cases he)
+
+theorem pcFF_finishGc (prog : Prog) (g : Store) (r : Res) (hr : r.okRes) : PcFF (finishGc prog g r).2 := by
+  unfold finishGc
+  split
+  · split
+    · rename_i e; exact hr
+    · exact pcFF_afterShare _ _ _ (by intro e he; cases he)
+  · exact hr
+
+theorem pcFF_gcStart (prog : Prog) (g : Store) : PcFF (gcStart prog g).2 := by
+  unfold gcStart
+  split
+  · exact pcFF_finishGc _ _ _ (by intro e he; cases he)
+  · split
+    · exact pcFF_finishGc _ _ _ (by intro e he; cases he)
+    · trivial
+
+theorem pcFF_gcPlan (prog : Prog) (g : Store) (rm : List (Bid × Nat)) (c : List Cand) (t : Nat) :
+    PcFF (gcPlan prog g rm c t).2 := by
+  unfold gcPlan
+  simp only
+  split
+  · refine ⟨rfl, ?_⟩
+    split
+    · intro e he; cases he; rfl
+    · intro e he; cases he
+  · trivial
+
+theorem pcFF_gcNext (prog : Prog) (g : Store) (rm todo : List (Bid × Nat)) (c : List Cand) (t : Nat) :
+    PcFF (gcNext prog g rm todo c t).2 := by
+  unfold gcNext
+  split
+  · exact pcFF_gcPlan ..
+  · trivial
+
+theorem stepPc_pcFF (H : Nat → Nat) (prog : Prog) (exO shO : Bool) (g : Store) (pc : Pc)
+    (h : PcFF pc) (hrepo : g.repo ≠ .absent)
+    (hlock : exO = false → shO = false → (pc = .iAddLock ∨ pc = .gLock) → ∃ l, g.repo = .valid l)
+    (hinfo : ∀ b d, g.final b = some d → ∃ m, d.info = some (.valid m))
+    (hscan : ∀ rm k sz rest cands total, pc = .gScanLock rm k sz rest cands total → g.final k ≠ none) :
+    PcFF (stepPc H true prog exO shO g pc).2 := by
+  cases pc
+  case done r => simpa [stepPc] using h
+  case start =>
+    unfold stepPc; simp only
+    split
+    · trivial
+    · split
+      · exact pcFF_afterShare _ _ _ (by intro e he; cases he)
+      · split
+        · intro e he; cases he; rfl
+        · trivial
+    · exact pcFF_gcStart ..
+    · intro e he; cases he
+  case uOpen =>
+    unfold stepPc; simp only
+    repeat' split
+    all_goals first | trivial | exact pcFF_afterShare _ _ _ (by intro e he; cases he)
+  case uLockRepo =>
+    unfold stepPc; simp only
+    repeat' split
+    all_goals trivial
+  case uOpenPkg =>
+    unfold stepPc; simp only
+    repeat' split
+    all_goals first | trivial | exact pcFF_afterShare _ _ _ (by intro e he; cases he)
+  case uLockPkg =>
+    unfold stepPc; simp only
+    cases hf : g.final (opBid prog) with
+    | none => exact ⟨rfl, by intro e he; cases he⟩
+    | some d =>
+      obtain ⟨m, hm⟩ := hinfo _ _ hf
+      simp only [hm]
+      split
+      · exact ⟨rfl, by intro e he; cases he⟩
+      · exact ⟨rfl, by intro e he; cases he⟩
+  case uClosePkg pend r =>
+    unfold stepPc; simp only
+    exact pcFF_afterShare _ _ _ h.2
+  case iVerify =>
+    unfold stepPc; simp only
+    split
+    · split
+      · intro e he; cases he; rfl
+      · trivial
+    · intro e he; cases he; rfl
+  case iRename tmp =>
+    unfold stepPc; simp only
+    split
+    · exact pcFF_afterShare _ _ _ (by intro e he; cases he)
+    · trivial
+  case iAddOpen =>
+    unfold stepPc; simp only
+    cases hr : g.repo with
+    | absent => exact absurd hr hrepo
+    | torn => trivial
+    | valid l => trivial
+  case iAddLock =>
+    unfold stepPc; simp only
+    cases hex : exO <;> cases hsh : shO <;> simp only [Bool.or_false, Bool.or_true, Bool.false_eq_true, if_false, if_true]
+    · obtain ⟨l, hl⟩ := hlock hex hsh (Or.inl rfl)
+      simp only [hl]
+      exact ⟨rfl, rfl⟩
+    all_goals trivial
+  case iAddCreate => exact absurd h (by simp [PcFF])
+  case iAddCreateLock => exact absurd h (by simp [PcFF])
+  case iAddClose pend t f =>
+    obtain ⟨rfl, rfl⟩ := h
+    unfold stepPc; simp only
+    simp only [Bool.false_eq_true, if_false]
+    split
+    · split
+      · exact pcFF_gcStart ..
+      · exact pcFF_afterShare _ _ _ (by intro e he; cases he)
+    · exact pcFF_afterShare _ _ _ (by intro e he; cases he)
+  case gOpen =>
+    unfold stepPc; simp only
+    cases hr : g.repo with
+    | absent => exact absurd hr hrepo
+    | torn => trivial
+    | valid l => trivial
+  case gLock =>
+    unfold stepPc; simp only
+    cases hex : exO <;> cases hsh : shO <;> simp only [Bool.or_false, Bool.or_true, Bool.false_eq_true, if_false, if_true]
+    · obtain ⟨l, hl⟩ := hlock hex hsh (Or.inr rfl)
+      simp only [hl]
+      exact pcFF_gcNext ..
+    all_goals trivial
+  case gScanOpen rm todo cands total =>
+    unfold stepPc; simp only
+    repeat' split
+    all_goals first | trivial | exact pcFF_gcPlan .. | exact pcFF_gcNext ..
+  case gScanLock rm k sz rest cands total =>
+    unfold stepPc; simp only
+    cases hf : g.final k with
+    | none => exact absurd hf (hscan rm k sz rest cands total rfl)
+    | some d =>
+      obtain ⟨m, hm⟩ := hinfo _ _ hf
+      obtain ⟨a, w, info, t⟩ := d
+      simp only at hm
+      subst hm
+      simp only
+      split
+      · rename_i e he
+        refine ⟨rfl, ?_⟩
+        intro e' he'
+        cases he'
+        -- checkUnused only fails with `inspect`
+        have : ∀ (us : List Ws), checkUnused g k us = .error e → e = .inspect := by
+          intro us
+          induction us with
+          | nil => intro hh; simp [checkUnused] at hh
+          | cons u r ih =>
+            intro hh
+            unfold checkUnused at hh
+            split at hh
+            · exact ih hh
+            · split at hh
+              · cases hh; rfl
+              · split at hh
+                · cases hh
+                · exact ih hh
+        rw [this _ he]; rfl
+      · exact pcFF_gcNext ..
+  case gMove rm plan t d te =>
+    unfold stepPc; simp only
+    cases plan with
+    | nil =>
+      simp only
+      split
+      · refine ⟨rfl, ?_⟩; split <;> (intro e he; cases he; try rfl)
+      · rename_i hd
+        have : d = false := by simpa using hd
+        subst this
+        refine ⟨rfl, ?_⟩; split <;> (intro e he; cases he; try rfl)
+    | cons c rest =>
+      simp only
+      cases hf : g.final c.bid with
+      | none =>
+        simp only
+        split
+        · exact ⟨rfl, by intro e he; cases he; rfl⟩
+        · rename_i hd
+          have : d = false := by simpa using hd
+          subst this
+          exact ⟨rfl, by intro e he; cases he; rfl⟩
+      | some dd =>
+        simp only
+        cases rest with
+        | nil => simp only [if_true]; refine ⟨rfl, ?_⟩; split <;> (intro e he; cases he; try rfl)
+        | cons c1 r2 => trivial
+  case gClose pend r =>
+    unfold stepPc; simp only
+    exact pcFF_finishGc _ _ _ h.2
+  case bUnlink x =>
+    unfold stepPc; simp only
+    repeat' split
+    all_goals first | trivial | (intro e he; cases he; try rfl)
+  case bSymlink x =>
+    unfold stepPc; simp only
+    repeat' split
+    all_goals first | trivial | (intro e he; cases he; try rfl)
+
+/-- structural facts about what a gc carries: the in-memory copy of repo.json has unique keys, the candidates /
+the plan are distinct entries of it, the entries still to scan are distinct and not yet candidates -/
+def GcWf : Pc → Prop
+  | .gScanOpen rm todo cands _ =>
+      (keys rm).Nodup ∧ (cands.map (·.bid) ++ keys todo).Nodup ∧ (∀ x ∈ todo, x ∈ rm) ∧ ∀ c ∈ cands, c.bid ∈ keys rm
+  | .gScanLock rm k sz rest cands _ =>
+      (keys rm).Nodup ∧ (cands.map (·.bid) ++ k :: keys rest).Nodup ∧ (k, sz) ∈ rm ∧ (∀ x ∈ rest, x ∈ rm) ∧
+        ∀ c ∈ cands, c.bid ∈ keys rm
+  | .gMove rm plan _ _ _ => (keys rm).Nodup ∧ (plan.map (·.bid)).Nodup ∧ ∀ c ∈ plan, c.bid ∈ keys rm
+  | _ => True
+
+theorem gcWf_of_notEX {pc : Pc} (h : pc.holdsEX = false) : GcWf pc := by
+  cases pc <;> first | trivial | (simp [Pc.holdsEX] at h)
+
+theorem gcSelect_nodup (quota : Option Nat) (pun : Bool) (cands : List Cand) (total : Nat)
+    (h : (cands.map (·.bid)).Nodup) : ((gcSelect quota pun cands total).1.map (·.bid)).Nodup := by
+  unfold gcSelect
+  obtain ⟨rest, hr⟩ := gcLoop_prefix quota pun (sortCands cands) total
+  have h1 : ((sortCands cands).map (·.bid)).Nodup :=
+    (List.Perm.nodup_iff ((sortCands_perm cands).map _)).mpr h
+  rw [hr, List.map_append] at h1
+  exact (List.nodup_append.mp h1).1
+
+theorem gcWf_gcPlan (prog : Prog) (g : Store) (rm : List (Bid × Nat)) (cands : List Cand) (t : Nat)
+    (h1 : (keys rm).Nodup) (h2 : (cands.map (·.bid)).Nodup) (h3 : ∀ c ∈ cands, c.bid ∈ keys rm) :
+    GcWf (gcPlan prog g rm cands t).2 := by
+  unfold gcPlan
+  simp only
+  split
+  · trivial
+  · exact ⟨h1, gcSelect_nodup _ _ _ _ h2, fun c hc => h3 c (gcSelect_sub _ _ _ _ c hc)⟩
+
+theorem gcWf_gcNext (prog : Prog) (g : Store) (rm todo : List (Bid × Nat)) (cands : List Cand) (t : Nat)
+    (h1 : (keys rm).Nodup) (h2 : (cands.map (·.bid) ++ keys todo).Nodup) (h3 : ∀ x ∈ todo, x ∈ rm)
+    (h4 : ∀ c ∈ cands, c.bid ∈ keys rm) : GcWf (gcNext prog g rm todo cands t).2 := by
+  unfold gcNext
+  split
+  · exact gcWf_gcPlan prog g rm cands t h1 (by simpa [keys] using h2) h4
+  · exact ⟨h1, h2, h3, h4⟩
+
+theorem stepPc_gcWf (H : Nat → Nat) (ff : Bool) (prog : Prog) (exO shO : Bool) (g : Store) (pc : Pc)
+    (h : GcWf pc) (hl : ∀ l, g.repo = .valid l → (keys l).Nodup) :
+    GcWf (stepPc H ff prog exO shO g pc).2 := by
+  cases pc
+  case gLock =>
+    unfold stepPc; simp only
+    split
+    · trivial
+    · cases hr : g.repo with
+      | valid l =>
+        simp only
+        exact gcWf_gcNext prog g l l [] 0 (hl l hr) (by simpa using hl l hr) (fun x hx => hx) (by intro c hc; cases hc)
+      | absent => trivial
+      | torn => trivial
+  case gScanOpen rm todo cands total =>
+    obtain ⟨h1, h2, h3, h4⟩ := h
+    unfold stepPc; simp only
+    cases todo with
+    | nil => simp only; exact gcWf_gcPlan prog g rm cands total h1 (by simpa [keys] using h2) h4
+    | cons x rest =>
+      obtain ⟨k, sz⟩ := x
+      simp only
+      have h2' : (cands.map (·.bid) ++ keys rest).Nodup := by
+        have : (cands.map (·.bid) ++ keys rest).Sublist (cands.map (·.bid) ++ keys ((k, sz) :: rest)) :=
+          List.Sublist.append_left (List.sublist_cons_self _ _) _
+        exact List.Nodup.sublist this h2
+      have h3' : ∀ x ∈ rest, x ∈ rm := fun x hx => h3 x (List.mem_cons_of_mem _ hx)
+      cases hf : g.final k with
+      | none => simp only; exact gcWf_gcNext prog g rm rest cands _ h1 h2' h3' h4
+      | some d =>
+        simp only
+        cases hi : d.info with
+        | none => simp only; exact gcWf_gcNext prog g rm rest cands _ h1 h2' h3' h4
+        | some j => simp only; exact ⟨h1, h2, h3 _ (by simp), h3', h4⟩
+  case gScanLock rm k sz rest cands total =>
+    obtain ⟨h1, h2, h3, h4, h5⟩ := h
+    unfold stepPc; simp only
+    have hk : k ∈ keys rm := List.mem_map.mpr ⟨(k, sz), h3, rfl⟩
+    have h2' : (cands.map (·.bid) ++ keys rest).Nodup := by
+      have : (cands.map (·.bid) ++ keys rest).Sublist (cands.map (·.bid) ++ k :: keys rest) :=
+        List.Sublist.append_left (List.sublist_cons_self _ _) _
+      exact List.Nodup.sublist this h2
+    split
+    · split
+      · trivial
+      · split
+        · refine gcWf_gcNext prog g rm rest _ _ h1 ?_ h4 ?_
+          · simpa [List.map_append, List.append_assoc] using h2
+          · intro c hc
+            rcases List.mem_append.mp hc with hc | hc
+            · exact h5 c hc
+            · simp only [List.mem_singleton] at hc; subst hc; exact hk
+        · exact gcWf_gcNext prog g rm rest cands _ h1 h2' h4 h5
+    · trivial
+  case gMove rm plan t d te =>
+    obtain ⟨h1, h2, h3⟩ := h
+    unfold stepPc; simp only
+    cases plan with
+    | nil => simp only; split <;> trivial
+    | cons c rest =>
+      simp only
+      cases hf : g.final c.bid with
+      | none => simp only; split <;> trivial
+      | some dd =>
+        simp only
+        cases rest with
+        | nil => simp only; split <;> trivial
+        | cons c1 r2 =>
+          simp only
+          have hn := List.nodup_cons.mp (by simpa using h2 : (c.bid :: (c1 :: r2).map (·.bid)).Nodup)
+          refine ⟨nodup_erasePkg rm c.bid h1, hn.2, ?_⟩
+          intro c' hc'
+          refine (mem_keys_erasePkg rm c.bid c'.bid h1).mpr ⟨?_, h3 c' (List.mem_cons_of_mem _ hc')⟩
+          intro he
+          exact hn.1 (List.mem_map.mpr ⟨c', hc', he⟩)
+  all_goals exact gcWf_of_notEX (stepPc_notEX H ff prog exO shO g _ rfl (by intro hh; cases hh))
+
+def Pc.rmeta : Pc → Option (List (Bid × Nat))
+  | .gScanOpen rm _ _ _ => some rm
+  | .gScanLock rm _ _ _ _ _ => some rm
+  | .gMove rm _ _ _ _ => some rm
+  | _ => none
+
+def Pc.dirty : Pc → Bool
+  | .gMove _ _ _ d _ => d
+  | _ => false
+
+/-- published, not yet recorded in repo.json -/
+def Pc.inWindow : Pc → Bool
+  | .iAddOpen | .iAddLock | .iAddCreate | .iAddCreateLock => true
+  | _ => false
+
+theorem Pc.rmeta_of_notEX {pc : Pc} (h : pc.holdsEX = false) : pc.rmeta = none := by
+  cases pc <;> first | rfl | (simp [Pc.holdsEX] at h)
+
+theorem Pc.holdsEX_of_rmeta {pc : Pc} {rm : List (Bid × Nat)} (h : pc.rmeta = some rm) : pc.holdsEX = true := by
+  cases pc <;> first | rfl | (simp [Pc.rmeta] at h)
+
+theorem Pc.dirty_of_notEX {pc : Pc} (h : pc.holdsEX = false) : pc.dirty = false := by
+  cases pc <;> first | rfl | (simp [Pc.holdsEX] at h)
+
+@[simp] theorem inWindow_afterShare (prog : Prog) (g : Store) (r : Res) : (afterShare prog g r).2.inWindow = false := by
+  rcases afterShare_pc prog g r with ⟨_, h⟩ | ⟨_, h⟩ | ⟨_, h⟩ <;> rw [h] <;> rfl
+
+@[simp] theorem inWindow_finishGc (prog : Prog) (g : Store) (r : Res) : (finishGc prog g r).2.inWindow = false := by
+  rcases finishGc_pc prog g r with ⟨_, h⟩ | ⟨_, h⟩ | ⟨_, h⟩ <;> rw [h] <;> rfl
+
+@[simp] theorem inWindow_gcStart (prog : Prog) (g : Store) : (gcStart prog g).2.inWindow = false := by
+  unfold gcStart
+  split
+  · simp
+  · split
+    · simp
+    · rfl
+
+@[simp] theorem inWindow_gcPlan (prog : Prog) (g : Store) (rm : List (Bid × Nat)) (c : List Cand) (t : Nat) :
+    (gcPlan prog g rm c t).2.inWindow = false := by
+  unfold gcPlan
+  simp only
+  split <;> rfl
+
+@[simp] theorem inWindow_gcNext (prog : Prog) (g : Store) (rm todo : List (Bid × Nat)) (c : List Cand) (t : Nat) :
+    (gcNext prog g rm todo c t).2.inWindow = false := by
+  unfold gcNext
+  split
+  · simp
+  · rfl
+
+/-- a process enters the window only by publishing -/
+theorem stepPc_inWindow_enter (H : Nat → Nat) (ff : Bool) (prog : Prog) (exO shO : Bool) (g : Store) (pc : Pc)
+    (h : (stepPc H ff prog exO shO g pc).2.inWindow = true) (hpc : pc.inWindow = false) :
+    (∃ tmp, pc = .iRename tmp) ∧ g.final (opBid prog) = none := by
+  cases pc
+  case iRename tmp =>
+    unfold stepPc at h; simp only at h
+    cases hf : g.final (opBid prog) with
+    | none => exact ⟨⟨tmp, rfl⟩, rfl⟩
+    | some d => simp [hf] at h
+  case iAddOpen => simp [Pc.inWindow] at hpc
+  case iAddLock => simp [Pc.inWindow] at hpc
+  case iAddCreate => simp [Pc.inWindow] at hpc
+  case iAddCreateLock => simp [Pc.inWindow] at hpc
+  all_goals (exfalso; revert h; unfold stepPc; simp only)
+  all_goals (repeat' split)
+  all_goals first
+    | (intro h; simp only [inWindow_afterShare, inWindow_finishGc, inWindow_gcStart, inWindow_gcPlan, inWindow_gcNext] at h; cases h)
+    | (intro h; cases h)
+    | simp [Pc.inWindow]
+
+/-- a process leaves the window only by recording its package -/
+theorem stepPc_inWindow_stay (H : Nat → Nat) (ff : Bool) (prog : Prog) (exO shO : Bool) (g : Store) (pc : Pc)
+    (hpc : pc.inWindow = true) :
+    (stepPc H ff prog exO shO g pc).2.inWindow = true ∨
+      ((pc = .iAddLock ∨ pc = .iAddCreateLock) ∧ exO = false ∧ shO = false) := by
+  cases pc
+  case iAddOpen =>
+    left
+    unfold stepPc; simp only
+    cases hr : g.repo <;> rfl
+  case iAddCreate =>
+    left
+    unfold stepPc; simp only
+    cases hr : g.repo <;> rfl
+  case iAddLock =>
+    cases hex : exO <;> cases hsh : shO
+    · right; exact ⟨Or.inl rfl, rfl, rfl⟩
+    all_goals (left; unfold stepPc; simp; rfl)
+  case iAddCreateLock =>
+    cases hex : exO <;> cases hsh : shO
+    · right; exact ⟨Or.inr rfl, rfl, rfl⟩
+    all_goals (left; unfold stepPc; simp; rfl)
+  all_goals simp [Pc.inWindow] at hpc
+
+theorem rmeta_gcPlan (prog : Prog) (g : Store) (rm : List (Bid × Nat)) (c : List Cand) (t : Nat) (rm' : List (Bid × Nat))
+    (h : (gcPlan prog g rm c t).2.rmeta = some rm') : rm' = rm ∧ (gcPlan prog g rm c t).2.dirty = false := by
+  unfold gcPlan at h ⊢
+  simp only at h ⊢
+  split
+  · rename_i hc; simp [hc, Pc.rmeta] at h
+  · rename_i hc; simp [hc, Pc.rmeta] at h; exact ⟨h.symm, rfl⟩
+
+theorem rmeta_gcNext (prog : Prog) (g : Store) (rm todo : List (Bid × Nat)) (c : List Cand) (t : Nat) (rm' : List (Bid × Nat))
+    (h : (gcNext prog g rm todo c t).2.rmeta = some rm') : rm' = rm ∧ (gcNext prog g rm todo c t).2.dirty = false := by
+  unfold gcNext at h ⊢
+  split
+  · exact rmeta_gcPlan prog g rm c t rm' h
+  · simp [Pc.rmeta] at h; exact ⟨h.symm, rfl⟩
+
+/-- scanning keeps the in-memory copy of repo.json and writes nothing -/
+theorem stepPc_scan_rmeta (H : Nat → Nat) (ff : Bool) (prog : Prog) (exO shO : Bool) (g : Store) (pc : Pc)
+    (rm : List (Bid × Nat)) (hrm : pc.rmeta = some rm) (hmove : ∀ rm plan t d te, pc ≠ .gMove rm plan t d te)
+    (rm' : List (Bid × Nat)) (h : (stepPc H ff prog exO shO g pc).2.rmeta = some rm') :
+    rm' = rm ∧ (stepPc H ff prog exO shO g pc).2.dirty = false := by
+  cases pc
+  case gScanOpen rm0 todo cands total =>
+    simp [Pc.rmeta] at hrm; subst hrm
+    unfold stepPc at h ⊢; simp only at h ⊢
+    cases todo with
+    | nil => exact rmeta_gcPlan _ _ _ _ _ _ h
+    | cons x rest =>
+      obtain ⟨k, sz⟩ := x
+      simp only at h ⊢
+      cases hf : g.final k with
+      | none => simp only [hf] at h ⊢; exact rmeta_gcNext _ _ _ _ _ _ _ h
+      | some d =>
+        simp only [hf] at h ⊢
+        cases hi : d.info with
+        | none => simp only [hi] at h ⊢; exact rmeta_gcNext _ _ _ _ _ _ _ h
+        | some j => simp only [hi, Pc.rmeta, Option.some.injEq] at h ⊢; exact ⟨h.symm, rfl⟩
+  case gScanLock rm0 k sz rest cands total =>
+    simp [Pc.rmeta] at hrm; subst hrm
+    unfold stepPc at h ⊢; simp only at h ⊢
+    split at h
+    · rename_i a w m t hf
+      cases hu : checkUnused g k m.users with
+      | error e => simp [hu, Pc.rmeta] at h
+      | ok u => simp only [hu] at h ⊢; exact rmeta_gcNext _ _ _ _ _ _ _ h
+    · simp [Pc.rmeta] at h
+  case gMove rm0 plan t d te => exact absurd rfl (hmove rm0 plan t d te)
+  all_goals simp [Pc.rmeta] at hrm
+
 end Share
